@@ -132,8 +132,31 @@ class Engine(Interp, InterpExpr, InterpComp, InterpStmt, InterpCall, InterpBuilt
         return ('array', '')
 
     def bi_contents_where(self, args, kw, line):
-        """contents_where(lambda r: <Bool over an object/collection value r of class/kind K>, K)"""
-        return ('pred', args[0], args[1] if len(args) > 1 else None)
+        """contents_where(lambda r: <Bool>, kind): the contents of every container r of that kind ('list', 'set', 'dict',
+        'rec'; default 'list') satisfying the predicate.  The predicate is read in the heap of the moment the modifies
+        clause is evaluated (the pre-state); r is only meant to be compared by identity (`r is x`)."""
+        lam = args[0]
+        kind = args[1] if len(args) > 1 else 'list'
+        if not isinstance(lam, LambdaV) or kind not in ('list', 'set', 'dict', 'rec'):
+            raise Unsupported('contents_where(lambda r: ..., kind)')
+        snap = self.heap.snapshot()
+        fr = lam.frame
+        pinned = LambdaV(lam.node, Frame(fr.fi, fr.module, {k: self.pin(v, snap) for k, v in fr.vars.items()},
+                                         self.pin(fr.selfv, snap) if fr.selfv is not None else None, fr.defcls))
+        cache = {}
+
+        def pred(r):
+            if r.get_id() not in cache:
+                val = {'list': ListV(r, ANY, snap), 'set': SetV(r, ANY, snap), 'dict': DictV(r, ANY, ANY, snap),
+                       'rec': RecV(r, snap)}[kind]
+                saved = self.mode
+                self.mode = SPEC
+                try:
+                    cache[r.get_id()] = (r, self.as_bool(self.truthy(self.call_lambda(pinned, [val]))))
+                finally:
+                    self.mode = saved
+            return cache[r.get_id()][1]
+        return ('pred', pred, {'list': 'L.', 'set': 'S.', 'dict': 'D.', 'rec': 'R.'}[kind])
 
     def bi_unchanged(self, args, kw, line):
         """unchanged(): no heap location that existed on entry of the function under proof has a different content now.
@@ -183,7 +206,7 @@ class Engine(Interp, InterpExpr, InterpComp, InterpStmt, InterpCall, InterpBuilt
                     refs.append(it[1])
                 if it[0] == 'contents' and name[:2] == it[2]:
                     refs.append(it[1])
-                if it[0] == 'pred' and name[:2] in ('L.', 'S.', 'D.', 'R.'):
+                if it[0] == 'pred' and name[:2] == it[2]:
                     preds.append(it[1])
             if not refs and not preds:
                 return None
